@@ -20,7 +20,7 @@ import (
 	"verif/mc/hx"
 )
 
-var slotNames = []string{"a.yaml", "b.json"}
+var slotNames = []string{"a.yaml", ".b.json"} // the second one is a hidden file: a Spec file all the same
 var kinds = []dirmodel.Kind{dirmodel.Absent, dirmodel.X, dirmodel.XY, dirmodel.Y, dirmodel.V2, dirmodel.Syn, dirmodel.Sem}
 
 type slot struct{ dir, name string }
